@@ -148,5 +148,22 @@ def generate(rng, tier):
             qs.append(f"L{fb(b2f(f2b((extra + eps) * scale)))},{fb(0.0)}")
         qs.append(f"L{fb(float((extra + 40) * scale))},{fb(1.0)}")
         out.append((f"stats {hx(skyb(blk, rng))} " + " ".join(qs), True))
+    # eased descents (zero vertical speed at both ends: control points top, top, bottom, bottom): a landing instant within the
+    # first or last percent of the segment, where two solutions of the altitude equation lie close together
+    for i in range(50 if tier == "thorough" else 10):
+        scale = rng.choice([1, 10])
+        top = rng.choice([10000, 8000, 3000])
+        bottom = rng.choice([0, 500])
+        dur = rng.choice([20000, 10000, 6000])
+        segs = [(4000, [300], [], [top], []), (dur, [], [], [top, bottom, bottom], [])]
+        if rng.random() < 0.4:
+            segs.append((2000, [], [], [], []))      # a hover behind it belongs to the run
+        blk = build(scale, (0, 0, 0, 0), segs)
+        D = (top - bottom) * scale
+        qs = []
+        for frac in (0.0004, 0.001, 0.003, 0.01, 0.5):
+            qs.append(f"L{fb(b2f(f2b(D * frac)))},{fb(0.0)}")
+            qs.append(f"L{fb(b2f(f2b(D * (1 - frac))))},{fb(0.0)}")
+        out.append((f"stats {hx(skyb(blk, rng))} " + " ".join(qs), True))
     out.append((f"stats {hx(skyb(build(1, (0, 0, 5, 0), [])))} L{fb(2.5)},{fb(0.05)} L{fb(0.0)},{fb(0.05)}", False))
     return out
